@@ -473,7 +473,10 @@ def link(ctx, R):
     ok = any(isinstance(c.func, ast.Name) and c.func.id == "reversed" for c in calls_in(g.node)) and any(isinstance(c.func, ast.Attribute) and c.func.attr == "getPathToRoot" for c in calls_in(g.node))
     R.check(ok, "C07.LINK", g.qual, where(g), "path from the root = reversed path to the root", "getPathFromRoot is not the reversed parent chain")
     h_ = P.func("node.Node.getPathToRoot")
-    ws = [n for n in h_.node.body if isinstance(n, ast.While)]
+    from ..normalise import fuse_generators
+
+    hbody = fuse_generators(P, h_) or h_.node.body  # list(self._walkUp()) is the loop of the generator
+    ws = [n for n in hbody if isinstance(n, ast.While)]
     ok = len(ws) == 1 and any(isinstance(s_, ast.Assign) and ntext(s_.value).endswith(".parent") for s_ in ws[0].body) and any(isinstance(s_, ast.Expr) and isinstance(s_.value, ast.Call) and ntext(s_.value.func).endswith(".append") for s_ in ws[0].body)
     R.check(ok, "C07.LINK", h_.qual, where(h_), "follows parent links collecting every hop", "getPathToRoot does not collect every node along the parent chain")
 
